@@ -376,7 +376,12 @@ func genShared(by map[string]*packages.Package, out string) {
 // bscript/interpreter, as (file, function, expression text).  The model turns each of them into a total
 // operation or an explicit panic outcome; GoBT/Interp/IndexReview.lean records, per function, why.
 func genIndexing(by map[string]*packages.Package, out string) {
-	p := by["interpreter"]
+	genIndexingFor(by["interpreter"], out+"/Indexing.lean", "GoBT.Gen.Indexing", "bscript/interpreter")
+	genIndexingFor(by["bscript"], out+"/IndexingBscript.lean", "GoBT.Gen.IndexingBscript", "bscript")
+	genIndexingFor(by["bt"], out+"/IndexingBt.lean", "GoBT.Gen.IndexingBt", "the root package")
+}
+
+func genIndexingFor(p *packages.Package, outFile, ns, what string) {
 	var rows []string
 	for _, f := range p.Syntax {
 		fname := p.Fset.Position(f.Pos()).Filename
@@ -423,8 +428,8 @@ func genIndexing(by map[string]*packages.Package, out string) {
 	}
 	sort.Strings(rows)
 	var sb strings.Builder
-	sb.WriteString("/- GENERATED by /verif/extract from /repo/bscript/interpreter — do not edit. -/\nnamespace GoBT.Gen.Indexing\n\n")
+	sb.WriteString("/- GENERATED by /verif/extract from /repo (" + what + ") — do not edit. -/\nnamespace " + ns + "\n\n")
 	sb.WriteString("/-- (file, function, index or slice expression) -/\ndef sites : List (String × String × String) := [\n")
-	sb.WriteString("  " + strings.Join(rows, ",\n  ") + "\n]\n\nend GoBT.Gen.Indexing\n")
-	writeIfChanged(out+"/Indexing.lean", sb.String())
+	sb.WriteString("  " + strings.Join(rows, ",\n  ") + "\n]\n\nend " + ns + "\n")
+	writeIfChanged(outFile, sb.String())
 }
